@@ -321,6 +321,11 @@ def _unbatch(batches):
 class _AsyncBridge:
     """Synchronous façade over an async generator (own event loop)."""
 
+    # seconds the event loop keeps running after every element (a consumer
+    # that awaits other things between two elements lets background tasks of
+    # the producer run ahead); set by checks that measure read-ahead
+    idle_s = 0.0
+
     def __init__(self, agen):
         self._loop = asyncio.new_event_loop()
         self._agen = agen
@@ -330,7 +335,10 @@ class _AsyncBridge:
 
     def __next__(self):
         try:
-            return self._loop.run_until_complete(self._agen.__anext__())
+            item = self._loop.run_until_complete(self._agen.__anext__())
+            if self.idle_s:
+                self._loop.run_until_complete(asyncio.sleep(self.idle_s))
+            return item
         except StopAsyncIteration:
             self.close()
             raise StopIteration from None
